@@ -106,9 +106,16 @@ func (s *Server) c2URL(r *http.Request) (string, error) {
 		return p, nil
 	}
 
-	/* Failing that, try the Host: header. */
-	if p, err := idna.ToASCII(r.Host); nil != err {
+	/* Failing that, try the Host: header.  Only the hostname is
+	punycoded; the port, if any, isn't part of a domain label. */
+	host, port, err := net.SplitHostPort(r.Host)
+	if nil != err { /* No port. */
+		host, port = r.Host, ""
+	}
+	if p, err := idna.ToASCII(host); nil != err {
 		return "", fmt.Errorf("punycoding %s: %w", r.Host, err)
+	} else if "" != p && "" != port {
+		return net.JoinHostPort(p, port), nil
 	} else if "" != p {
 		return p, nil
 	}
